@@ -53,6 +53,9 @@ func (e *lfEngine) doCall(fr *lfFrame, st *lfState, x *ssa.Call, k func(st *lfSt
 		return
 	}
 	name := calleeName(cc)
+	if e.onCall != nil && e.quiet == 0 {
+		e.onCall(fr, st, x)
+	}
 	if e.bits {
 		name = e.roleName(cc, name)
 		if res, ok := e.bitsIntercept(fr, st, x, name); ok {
@@ -171,16 +174,23 @@ func (e *lfEngine) tracksSig(sig *types.Signature) bool {
 	if e.tracksResult(sig) {
 		return true
 	}
-	if rv := sig.Recv(); rv != nil && (isIntType(rv.Type()) || sliceLike(rv.Type()) || pointsToStruct(rv.Type())) {
+	if rv := sig.Recv(); rv != nil && (isIntType(rv.Type()) || sliceLike(rv.Type()) || pointsToStruct(rv.Type()) || e.bits && isStructValue(rv.Type())) {
 		return true
 	}
 	for i := 0; i < sig.Params().Len(); i++ {
 		t := sig.Params().At(i).Type()
-		if isIntType(t) || sliceLike(t) || pointsToStruct(t) {
+		if isIntType(t) || sliceLike(t) || pointsToStruct(t) || e.bits && (isStructValue(t) || isHashHash(t)) {
 			return true
 		}
 	}
 	return false
+}
+
+// isStructValue: a struct passed by value — in bits mode the fields it carries (message
+// pointers, say) are what the callee encodes.
+func isStructValue(t types.Type) bool {
+	_, ok := t.Underlying().(*types.Struct)
+	return ok
 }
 
 // pointsToStruct: a pointer to a struct — the callee can read and write the
@@ -1109,6 +1119,7 @@ func (e *lfEngine) bitsIntercept(fr *lfFrame, st *lfState, x *ssa.Call, name str
 			}
 		} else if p, isP := e.val(fr, st, sliceBase(args[0])).(vPtr); isP {
 			// local array buffer: buf[:] — store element-wise
+			delete(st.heap, fmt.Sprintf("%d%s", p.Obj, p.Path)) // the array as a whole is no longer what was last stored
 			for i := int64(0); i < nb; i++ {
 				j := i
 				if strings.Contains(name, "bigEndian") {
